@@ -10,4 +10,4 @@ EXPLANATION = ""
 LEVEL_TEXT = "Deductive proof of the exit-code mapping over abstract per-file outcomes: CutplaceApp.validate (sticky flag, OSError propagates), process (loop invariant over the data paths), main (exception mapping), set_options (--until)."
 LEVEL_NOTE = "Trusts the pyvc encoding, z3/cvc5, argparse; that 'cannot be read' surfaces as OSError from the readers is a bounded table (known finding K-7 for ODS)."
 TECHNIQUE = "contract-based deductive verification (VCs from the ast of the real functions, z3/cvc5) + bounded end-to-end exit-code table"
-UNITS = [VIO.unit_reader_rows(), CK.unit_check_resets(), APP.unit_app_validate(), APP.unit_process(), APP.unit_main(), APP.unit_set_options(), APP.unit_c18_table(), APP.unit_k7_witness()]
+UNITS = [VIO.unit_reader_rows(), CK.unit_check_resets(), APP.unit_app_validate(), APP.unit_process(), APP.unit_main(), APP.unit_set_options(), APP.unit_set_cid_from_path(), APP.unit_app_init(), APP.unit_c18_table(), APP.unit_k7_witness()]
